@@ -640,7 +640,7 @@ pub fn execute(case: &Case, ctx: &mut Ctx) {
                     }
                     resume_all(ctx, if *finished { "SpeedLimitTrainSim (finished path)" } else { "SpeedLimitTrainSim" }, &sim, *n_steps, &points, &mut rng);
                     roundtrip(ctx, "PathTpc (generated)", &sim.path_tpc, &mut rng, false);
-                    roundtrip(ctx, "Network (generated)", &Network(links.clone()), &mut rng, false);
+                    roundtrip(ctx, "Network (generated)", &Network(links.clone()), &mut rng, true);
                     // estimated-time network of the same train
                     if rng.chance(0.3) {
                         if let Ok(s0) = trn::make_limit_sim(inner) {
